@@ -438,6 +438,36 @@ def extract():
                  "storeLeakInformation(node,new_memory,size,allocator,file,line);returnnode->memory_;",
                  "reallocateMemoryAndLeakInformation")
 
+    # the overload switches and destroyGlobalDetector
+    body = norm(function_body(plugin, r"MemoryLeakWarningPlugin::areNewDeleteOverloaded\s*\(\s*\)\s*\{"))
+    m = re.match(r"^#ifCPPUTEST_USE_MEM_LEAK_DETECTIONreturn(.*?);#elsereturnfalse;#endif$", body)
+    if not m:
+        raise TranslateError("areNewDeleteOverloaded changed shape: " + body[:200])
+    on_set = set()
+    for part in m.group(1).split("||"):
+        mm = re.match(r"^operator_new_fptr==(\w+)$", part)
+        if not mm:
+            raise TranslateError("areNewDeleteOverloaded: disjunct not understood: " + part)
+        on_set.add(mm.group(1))
+
+    def new_fptr_after(fn):
+        b = norm(function_body(plugin, r"MemoryLeakWarningPlugin::%s\s*\(\s*\)\s*\{" % fn))
+        mm = re.search(r"operator_new_fptr=(\w+);", b)
+        if not mm:
+            raise TranslateError("%s does not assign operator_new_fptr" % fn)
+        return "true" if mm.group(1) in on_set else "false"
+    after_off = new_fptr_after("turnOffNewDeleteOverloads")
+    after_on = new_fptr_after("turnOnDefaultNotThreadSafeNewDeleteOverloads")
+    body = norm(function_body(plugin, r"MemoryLeakWarningPlugin::destroyGlobalDetector\s*\(\s*\)\s*\{"))
+    m = re.match(r"^(turnOffNewDeleteOverloads\(\);)?deleteglobalDetector;deleteglobalReporter;globalDetector=NULLPTR;$", body)
+    if not m:
+        raise TranslateError("destroyGlobalDetector changed shape: " + body[:200])
+    destroy_off = "true" if m.group(1) else "false"
+    body = norm(function_body(plugin, r"MemoryLeakWarningPlugin::getGlobalDetector\s*\(\s*\)\s*\{"))
+    if body != ("if(globalDetector==NULLPTR){saveAndDisableNewDeleteOverloads();globalReporter=newMemoryLeakWarningReporter;"
+                "globalDetector=newMemoryLeakDetector(globalReporter);restoreNewDeleteOverloads();}returnglobalDetector;"):
+        raise TranslateError("getGlobalDetector changed shape: " + body[:300])
+
     # the plugin chain and the runner
     expect_shape(tplugin, r"TestPlugin::runAllPreTestAction\s*\([^)]*\)\s*\{",
                  "if(enabled_)preTestAction(test,result);next_->runAllPreTestAction(test,result);", "runAllPreTestAction")
@@ -501,6 +531,10 @@ def extract():
         mi.group(1), me.group(1), ignore_value)
     text += "/-- `FinalReport`: period counted, period reported -/\n"
     text += "def finalCountPeriod : Period := %s\ndef finalReportPeriod : Period := %s\n\n" % (final_count, final_report)
+    text += "/-- what `areNewDeleteOverloaded()` answers after `turnOffNewDeleteOverloads()` / after\n"
+    text += "    `turnOnDefaultNotThreadSafeNewDeleteOverloads()`; does `destroyGlobalDetector()` turn the overloads off -/\n"
+    text += "def overloadsAfterTurnOff : Bool := %s\ndef overloadsAfterTurnOn : Bool := %s\ndef destroyTurnsOverloadsOff : Bool := %s\n\n" % (
+        after_off, after_on, destroy_off)
     text += "/-- `reallocMemory`, branch taken when the platform realloc failed: fields of the re-registered node -/\n"
     text += "def reallocFailNumber : FieldSrc := %s\ndef reallocFailSize : FieldSrc := %s\ndef reallocFailPeriod : FieldSrc := %s\n\n" % (
         rf_number, rf_size, rf_period)
